@@ -7,6 +7,76 @@ func init() {
 	vHarnesses["VerifC03Sub"] = VerifC03Sub
 	vHarnesses["VerifC03Canary"] = VerifC03Canary
 	vHarnesses["VerifC03SubObj"] = VerifC03SubObj
+	vHarnesses["VerifC03ObjHunk"] = VerifC03ObjHunk
+}
+
+func vSmallVal() JsonNode {
+	switch vChoice(4) {
+	case 0:
+		return vNum()
+	case 1:
+		return vNumArray(1)
+	case 2:
+		return jsonObject{"x": vNum()}
+	default:
+		return jsonObject{}
+	}
+}
+
+// VerifC03ObjHunk: a hand-written strict hunk addressed to an object member, a nested member,
+// the root, or a member below an array element, against targets where the member is absent,
+// present with a matching or a non-matching value.
+func VerifC03ObjHunk() {
+	var cur JsonNode = voidNode{}
+	has := vChoice(2) == 1
+	if has {
+		cur = vSmallVal()
+	}
+	where := vChoice(4)
+	var doc JsonNode
+	var path Path
+	switch where {
+	case 0: // the root itself
+		doc, path = cur, Path{}
+	case 1:
+		o := jsonObject{"z": vNum()}
+		if has {
+			o["k"] = cur
+		}
+		doc, path = o, Path{PathKey("k")}
+	case 2:
+		inner := jsonObject{}
+		if has {
+			inner["k"] = cur
+		}
+		doc, path = jsonObject{"p": inner}, Path{PathKey("p"), PathKey("k")}
+	default:
+		inner := jsonObject{}
+		if has {
+			inner["k"] = cur
+		}
+		doc, path = jsonArray{vNum(), inner}, Path{PathIndex(1), PathKey("k")}
+	}
+	var R, A []JsonNode
+	if vChoice(2) == 1 {
+		R = []JsonNode{vSmallVal()}
+	}
+	if vChoice(2) == 1 {
+		A = []JsonNode{vSmallVal()}
+	}
+	vAssume(len(R)+len(A) > 0)
+	if vKnown("hash.alias") {
+		vAssumeNoHashAlias(doc, doc)
+	}
+	orig := vClone(doc)
+	p, err := vClone(doc).Patch(Diff{{Path: path, Remove: R, Add: A}})
+	wantOk, want := refApplyStrict(orig, path, nil, R, A, nil)
+	vObserve("err", err != nil)
+	vAssert((err == nil) == wantOk, "strict member/root hunk accepted/rejected against the reference semantics")
+	if err == nil {
+		vAssert(refEq(p, want, modeList, 0), "strict member/root hunk applied with a result other than the reference result")
+	}
+	vCover("c03.objhunk." + [...]string{"root", "key", "nested", "key-in-array"}[where])
 }
 
 // VerifC03SubObj: sub-sequences of the hunks of an object diff (members: absent / number /
